@@ -256,6 +256,18 @@ theorem C35_same_process_never_busy (n : Nat) (σ : St) (s : Sid) (hI : Inv n σ
         rw [if_neg (by simp [hno hl])]
         intro h; cases h
 
+/-- **A refused BEGIN that the application catches changes nothing**: the session is as it was - outside a transaction, holding
+    no lock, nothing marked as locked - so a retried locking load goes through `ensureTxn` again and, when it succeeds,
+    `C35_lock_records` / `C35_locked_row` apply to it like to any other (the row it returns IS locked).  Mirrors sqlite
+    `set_transaction_mode`: BEGIN first, `in_transaction = True` only after it, `finally: release_lock()` when not in transaction
+    (source tie: `Src.lockBeforeBegin`). -/
+theorem C35_refused_begin_no_effect (n : Nat) (σ : St) (s : Sid) (hact : (σ.sess s).status = .active) :
+    (step n σ s .refused).1 = σ ∧ (step n σ s .refused).2 = .busy := by
+  unfold step
+  dsimp only
+  rw [if_neg (by simpa using hact)]
+  exact ⟨rfl, rfl⟩
+
 /-- **Splitting an operation at its lock acquisition** (what the call-granularity comparison of the engine relies on): once
     a session has taken the lock and begun its transaction (`begin`), a locking load or an UPDATE behaves exactly as if
     the whole operation - lock, BEGIN IMMEDIATE, statement - ran in one step from the state before; other sessions'
